@@ -137,6 +137,10 @@ MISSING_TAINT = Ob("C20-F1", "R-FLOW", "`missing` flows only to output fill, unw
 DIV_GUARDS = Ob("C20-N1", "R-ORDER", "every mean division by a covered-base count in the four bin routines is guarded by count > 0", PA.ob_division_guards, floor=8)
 BIN_SIBS = Ob("C20-S1", "R-SIB", "bin routines: bins/zoom siblings share bookkeeping; in-loop and final flush blocks identical", PA.ob_bin_siblings, floor=2)
 DRIVERS = Ob("C20-F2", "R-FLOW", "drivers: clamped query range, oob bins after data fill, bigWig/bigBed drivers identical", PA.ob_drivers, floor=3)
+BIN_ARITH = Ob("C20-B1", "R-BOUND", "bin_bound / bin_of: exact tiling, non-empty bins, integral widths, index and span consistent - evaluated for all small (len, bins, pos)", PA.ob_bin_arithmetic)
+BIN_ROUTINES = Ob("C20-B2", "R-FLOW", "four bin routines: item clamped to the range, items without a base in range skipped, bins via bin_of, spans via bin_bound", PA.ob_bin_routines, floor=4)
+ZOOM_ENTRY_STAT = Ob("C20-Z1", "R-STAT", "to_entry_array_zoom: NaN->0 seed only for the mean; min/max ignore NaN", PA.ob_zoom_entry_stat)
+OOB_FILL = Ob("C20-O1", "R-BOUND", "fill_out_of_bounds: exactly the bins with a base outside [0, length) become oob, indices in range - evaluated for all small (start, end, length, bins)", PA.ob_oob_fill)
 PER_BASE = Ob("C20-A1", "R-STAT", "per-base routines: NaN-seeded, value / +1 per covering entry, NaN -> missing", PA.ob_per_base, floor=2)
 
 from ..obs import zoomlist as ZL
@@ -157,6 +161,8 @@ TREE_OFFSETS = Ob("C05-F1", "R-FLOW", "R-tree offset premises: level sizes, chil
 EVERY_VALUE = Ob("C06-O1", "R-ORDER", "no early success exit: every accepted value reaches the summary / depth sweep, items buffer, flush test and every zoom level", SW.ob_every_value_processed, floor=6)
 WINDOW = Ob("C15-W1", "R-ORDER", "merge window accumulator, structural clauses only: accumulate-then-extend before any exit, window indices, hold-back, window advance, zero runs dropped", MF.ob_window, floor=5)
 
+NODE_COUNTS = Ob("C05-N1", "R-BOUND", "R-tree 16-bit child counts: block size capped at 65535 for chunking, node sizes and header", OF.ob_node_counts, floor=2)
+CHROM_TREE_COUNT = Ob("C09-N2", "R-BOUND", "chromosome tree: the single leaf's 16-bit item count must be bounded (or the tree multi-level)", OF.ob_chrom_tree_count)
 from ..obs import witness as WI
 WITNESSES = Ob("C12-T1w", "R-TYPE", "compile_fail witnesses with compiling twins: halves not Clone, await/expect_closed_write consume the buffer, destination moved into switch", WI.ob_witnesses, floor=5, tier="thorough")
 
